@@ -1,11 +1,22 @@
 """Source of MANIFEST.json (tools/gen_manifest.py writes it)."""
+NOTE = 'Trusted: rustc MIR dump, the MIR->SMT executor and its std models (validated per run on concrete points against the native build), cvc5/z3. Claims hold within the stated bounds.'
+def claim(text, design, technique='MIR symbolic execution -> SMT (linear integer arithmetic + UF), portfolio of cvc5/z3, native replay of counterexamples'):
+    return dict(text=text, note=NOTE, technique=technique, design=design)
 CLAIMS = {
-    'C01': dict(
-        text='Bounded symbolic model checking of the real code: days_to_date, date_to_days and the Date/DateTime from_ymd/as_ymd wrappers are executed '
-             'symbolically from rustc MIR (both overflow-check profiles) and decided by SMT solvers over ALL 2^32 day numbers and ALL (i32,u32,u32) triples '
-             'against a closed-form Rata Die oracle whose own successor/monotonicity/anchor lemmas are discharged in the same run. No sampling; bounds: none beyond the types.',
-        note='Trusted: rustc MIR dump, the MIR->SMT executor and its std models (validated per run on concrete points against the native build), cvc5/z3.',
-        technique='MIR symbolic execution -> SMT (LIA) vs closed-form oracle, full type range', design='3/C01'),
+    'C01': claim('Bounded symbolic model checking of the real code: days_to_date, date_to_days and the Date/DateTime from_ymd/as_ymd wrappers are executed symbolically from rustc MIR '
+                 '(both overflow-check profiles) and decided by SMT solvers over ALL 2^32 day numbers and ALL (i32,u32,u32) triples against a closed-form Rata Die oracle whose own '
+                 'successor/monotonicity/anchor lemmas are discharged in the same run. No sampling; no bound beyond the types.', '3/C01'),
+    'C02': claim('weekday, day_of_year, set_day_of_year, quarter for all 2^32 days (and all offsets for DateTime) against closed-form oracles; week of year for all days as: base 400-year cycle + '
+                 'invariance of library and oracle under a 146097-day shift, each decided by the solver at full range (induction over cycles is a stated meta-step), plus a direct window cross-check.', '3/C02'),
+    'C03': claim('timestamp round trips and must-panic for all i64 timestamps; ==, <, cmp of DateTime/Date/Time against the instant for all pairs of values and offsets.', '3/C03'),
+    'C04': claim('for each of 7 units x {add, sub} on DateTime, days on Date, and the +/- Duration/Time operators: exact target instant when representable (holds) and never-returns when not (must-panic), for all instants x all u32 counts / all Durations.', '3/C04'),
+    'C05': claim('add/sub months/years on Date and DateTime for all days x all u32 counts against the clamped calendar-month oracle, exact panic condition; days_to_date/date_to_days enter through their C01 contracts (proved in the same run).', '3/C05'),
+    'C06': claim('*_since for 7 units on DateTime, 6 on Time, days on Date = exact difference truncated toward zero, antisymmetry, duration_between = |difference|, add/since inverse, for all pairs.', '3/C06'),
+    'C07': claim('months_since/years_since for all pairs (triples for monotonicity) of days and times of day, quantified as consistent (day, y, m, d) tuples with days_to_date answered from those bindings.', '3/C07'),
+    'C08': claim('Time add/sub of 6 units for all u32 counts, Time+-Time, Time+-Duration, constructors, From<DateTime>: result in [0, 24h), value = (t +- amount) mod 24h, offset kept.', '3/C08'),
+    'C09': claim('10 setters and 9 clears on DateTime (all offsets, two-day margin at the range ends), Date and Time: the result is characterised completely in local time (edited local day / time of day, everything else equal), Err exactly for invalid values.', '3/C09'),
+    'C10': claim('set_offset keeps the instant, getters read the shifted instant, as_offset keeps fields and moves the instant, Offset constructors/resolve_hms, Time variants, for all instants (one-day margin) x all offsets.', '3/C10'),
+    'C15': claim('from_ymdhms/from_hms/from_seconds/from_nanos/Offset constructors/set_*: Ok exactly for valid arguments with the oracle value; stated ranges exclude the rejected value and contain every accepted one (relational query), over the full parameter domains.', '3/C15'),
 }
 NOT_APPLICABLE = {}
 PENDING = 'check not built yet in this revision (planned with the same solver-based technique, see DESIGN.md section 3)'
